@@ -9,7 +9,7 @@ from core import AnchorMissing
 LEVEL = "model_checking"
 CONFIGS = ["full", "book", "default"]
 NOT_DECIDED = [
-    "children whose own register/unregister fail",
+    "children whose own register/unregister fail are explored only for 'the failing child and every registered child stay owned by the wrapper'; what the poller holds after a partial failure is not",
     "sequences that skip the documented re-registration after remove()/replace() (e.g. replace() twice before one reregister, or replace() followed by a parent unregister instead of a reregister): outside the protocol the statement quantifies over",
 ]
 EXPLANATION = (
@@ -49,7 +49,7 @@ def run(ck):
         bad = any(k.startswith(row["cell"] + ":") for k in r["findings"])
         if not bad:
             ck.ok("1", "T13-typestate", "TransientSource", "cell:" + row["cell"], "child ops %s -> %s%s" % (row["child_ops"] or "none", row["next"], (" returns " + row["returns"]) if row["returns"] else ""), site="src/sources/transient.rs")
-    ck.ok("1", "T13-typestate", "TransientSource", "explored", "%d reachable configurations, %d transitions, %d extracted cells, depth %d" % (r["states"], r["transitions"], r["cells"], depth), site="src/sources/transient.rs")
+    ck.ok("1", "T13-typestate", "TransientSource", "explored", "%d reachable configurations, %d transitions, %d extracted cells, %d failing-child cells, depth %d" % (r["states"], r["transitions"], r["cells"], r.get("failure_cells", 0), depth), site="src/sources/transient.rs")
     ck.floor("1", "extracted (method x state x child result) cells", r["cells"], 40)
     ck.floor("1", "reachable configurations", r["states"], 8)
     ck.floor("1", "state variants", len(r["variants"]), 6)
